@@ -5,7 +5,7 @@ from ..core import rule
 from ..errors import AnalysisError
 from ..idx import index
 from ..px import OK, PX, RAISE, Outcomes
-from ..pxv import Obj, Sym
+from ..pxv import Exc, Obj, Sym
 from ..te import TypeRef
 from .util import anchor_attrs
 from .util import const, same_class, self_obj
@@ -19,7 +19,7 @@ def app_cls(ctx):
     return ctx.repo.cls(APP, "ControllerApplication")
 
 
-@rule("R19.1", ["C19"], "T-FUN", floor=100)
+@rule("R19.1", ["C19"], "T-FUN", floor=100, anchor_fallback=("R19.5",))
 def r19_1(ctx):
     """_watchdog_feed over keep-alive outcomes {ok, TimeoutError, EzspError, other exception, cancellation} x the
     failure count n in 0..MAX+3 x protocol version {4, later} x the position in the counter-clear period: a failed
@@ -116,7 +116,7 @@ def r19_1(ctx):
     ctx.sample({"MAX_WATCHDOG_FAILURES": MAX, "PERIOD": PERIOD})
 
 
-@rule("R19.2", ["C19"], "T-WMW", floor=4)
+@rule("R19.2", ["C19"], "T-WMW", floor=4, anchor_fallback=("R19.5",))
 def r19_2(ctx):
     """The failure count and the feed counter are written only by the initialiser, _watchdog_feed and
     _watchdog_loop, and _watchdog_loop zeroes both before delegating to zigpy's loop."""
@@ -164,3 +164,80 @@ def r19_4(ctx):
         if isinstance(n, _ast.ExceptHandler) and n.type is not None:
             names |= {_ast.unparse(t).split(".")[-1] for t in (n.type.elts if isinstance(n.type, _ast.Tuple) else [n.type])}
     ctx.require({"EzspError", "TimeoutError"} <= names, "feed-handler", f"_watchdog_feed handles {sorted(names)}; it must count EzspError and TimeoutError", func=f)
+
+
+@rule("R19.5", ["C19"], "T-FUN", floor=6)
+def r19_5(ctx):
+    """Histories of feeds on one application object, judged only by what each feed does (wherever the count is kept - an
+    attribute, a property, a zigpy diagnostics counter, whose reset() marks a roll-over and keeps the value): with F a failed
+    keep-alive (timeout or EZSP error) and S a successful feed, a feed raises exactly when it is the (MAX+1)-th failure in a row;
+    failures separated by a success never add up; the watchdog loop's start clears the run as well."""
+    from ..pxv import ZCounterGroup
+
+    repo = ctx.repo
+    MAX = const(ctx, APP, "MAX_WATCHDOG_FAILURES", int)
+    f = repo.func(f"{APP}:ControllerApplication._watchdog_feed")
+    loop = repo.func(f"{APP}:ControllerApplication._watchdog_loop")
+    ctx.fn(f)
+    cls = app_cls(ctx)
+    histories = {
+        "run-of-failures": "F" * (MAX + 2),
+        "success-in-between": "F" * (MAX // 2 + 1) + "S" + "F" * (MAX + 1),
+        "alternating": "FS" * (MAX + 2),
+        "almost-then-success": "F" * MAX + "S" + "F" * MAX + "S" + "F" * (MAX + 1),
+        "loop-restart": "F" * MAX + "L" + "F" * (MAX + 1),
+        "timeouts-and-errors": ("FE" * (MAX + 1))[:MAX + 1] + "S" + "E" * (MAX + 1),
+    }
+    for ver in (4, 8):
+        for hname, hist in histories.items():
+            step = {"i": 0}
+
+            def keepalive(px_, t, a, k, fr):
+                c = hist[step["i"]]
+                return Outcomes(OK({})) if c == "S" else Outcomes(RAISE("EzspError" if c == "E" else "TimeoutError"))
+
+            px = PX(repo, models=[(k, keepalive) for k in KEEPALIVE_CALLS] + [("self._get_free_buffers", Outcomes(OK(None))), ("await:super()._watchdog_loop", Outcomes(OK(None))),
+                                                                             ("super()._watchdog_loop", Outcomes(OK(None)))], inline=same_class())
+            px.inline.root = f
+            got = []
+
+            def entry():
+                got.clear()
+                ez = Obj(TypeRef("EZSP"), {"ezsp_version": ver}, tag="self._ezsp")
+                state = Obj(TypeRef("State"), {"counters": ZCounterGroup(1)}, tag="state")
+                me = self_obj(cls, {"_ezsp": ez, "_watchdog_failures": 0, "_watchdog_feed_counter": 0, "state": state})
+                px.top_frame = None
+                for i, c in enumerate(hist):
+                    step["i"] = i
+                    if c == "L":
+                        px.call_function(loop, me, [], {}, None)
+                        got.append("L")
+                        continue
+                    try:
+                        px.call_function(f, me, [], {}, None)
+                        got.append("-")
+                    except Exc as ex:
+                        if ex.cls_name not in ("TimeoutError", "EzspError"):
+                            raise
+                        got.append("R")
+                return None
+
+            want, run = [], 0
+            for c in hist:
+                if c == "L":
+                    run = 0
+                    want.append("L")
+                elif c == "S":
+                    run = 0
+                    want.append("-")
+                else:
+                    run += 1
+                    want.append("R" if run > MAX else "-")
+            paths = px._run(entry)
+            if len(paths) != 1:
+                raise AnalysisError(f"watchdog history {hname}: {len(paths)} paths on fixed outcomes")
+            p = paths[0]
+            ctx.paths += 1
+            ctx.require(p.terminal == "return" and got == want, f"history:{hname}",
+                        f"v{ver}, feeds {hist} (F/E failed keep-alive, S success, L loop restart; tolerated run {MAX}): feeds raise at {''.join(got)}, must raise at "
+                        f"{''.join(want)} ({p.terminal} {p.value if p.terminal == 'raise' else ''})", func=f, trace=p.trace(30))
